@@ -186,6 +186,9 @@ func (sl *Slicer) walk(v ssa.Value, c *sctx, path string, sliced bool) {
 	if sl.inLen > 0 {
 		k.ctx += "|len"
 	}
+	if sliced {
+		k.ctx += "|sliced" // a value reached both whole and through a window yields both origins
+	}
 	if sl.seen[k] {
 		return
 	}
